@@ -3,14 +3,84 @@
 import json, os
 VERIF = os.path.dirname(os.path.dirname(os.path.abspath(__file__)))
 
+COMMON_NOTE = ('rustc MIR construction + callee resolution; mirfacts serialisation; the symbolic path enumerator '
+               '(rules/lib/symx.py: loops traversed once, loop-carried values widened); ')
+
 CLAIMED = {
  # id: (technique, level text, level note, design ref)
  'C01': ('decision-table extraction from MIR (symbolic path enumeration of Member::can_change) checked exhaustively '
          'against SWIM precedence over a finite order abstraction; who-may-write and guard rules over resolved MIR',
          'Structural core of the property decided for all inputs at once: the precedence table, its single client, '
          'the writers of a record, the conflict-replacement guards and the routing of updates. No execution.',
-         'rustc MIR + callee resolution; mirfacts serialisation; win_addr_conflict a strict order per address (user contract). '
-         'Two-instance agreement as a run is not decided.', '4/C01'),
+         COMMON_NOTE + 'win_addr_conflict a strict order per address (user contract). Two-instance agreement as a run is not decided.', '4/C01'),
+ 'C06': ('panic-site enumeration over MIR (Assert terminators, core::panicking calls, unwrap/expect, partial library '
+         'routines) + classification of every external callee + discharge by path-sensitive guard reasoning (buffer '
+         'budgets, guarded subtraction), checked invariants (who-may-write, caller guards, pairing) and an audited table',
+         'Absence of reachable panics in Foca\'s own code for every input/history/configuration under the property\'s own '
+         'assumptions; the debug build (superset of panic sites) is analysed in two feature configurations.',
+         COMMON_NOTE + 'classification and audited tables in rules/c06_tables.py; third-party crates, serde-derive output, '
+         'user trait impls and allocation failure are outside the claim.', '4/C06'),
+ 'C07': ('writer-shape rules on send_message over all symbolic paths: single sender, header provenance, boundedness via '
+         'BufMut::limit, kind-predicate tables extracted from MIR, section guards, count patch-up pairing, writer/reader '
+         'sibling agreement, scratch-buffer discipline',
+         'Decides the framing Foca itself adds around codec output on every path and for every message kind.',
+         COMMON_NOTE + 'bytes::Limit bounds writes; byte-level acceptance for an arbitrary user codec is not decided.', '4/C07'),
+ 'C08': ('who-may-construct rules for notifications, iff-guards of handle_apply_summary over all paths, summary-flow '
+         '(must-pass-through) rule, flag-honesty rule on apply_existing_if, connection-state write/notify pairing and '
+         'transition guards, FIFO shape of AccumulatingRuntime',
+         'Notifications are produced only from, and always from, the summary of an actual change; the state machine\'s '
+         'pairing and guards hold on every path.',
+         COMMON_NOTE + 'the replay equation over histories is implied, not replayed.', '4/C08'),
+ 'C09': ('single-growth-site rule, conflict-gated identity replacement, own-address guards at every apply site, '
+         'payload-consumer guards in handle_data, exact-forgetting rule',
+         'Structural in almost full: uniqueness per address and the own-address exclusion follow from guards present on '
+         'every path to every site that can add or replace a record.',
+         COMMON_NOTE + 'Identity::addr pure; win_addr_conflict strict per address.', '4/C09'),
+ 'C10': ('who-may-write on Foca.incarnation/identity with value-provenance and guard extraction (iff over all paths of '
+         'handle_self_update), taint rule "learned incarnations never reach arithmetic" with positive control, '
+         'rejoin-or-defunct must-pass-through rule',
+         'Monotonicity and the exact bump condition/value are decided for all histories at once from the only writers.',
+         COMMON_NOTE + 'the wire-visible clause is decided via C07-R1 (header reads self.incarnation at send time).', '4/C10'),
+ 'C11': ('case-table extraction of the ChangeSuspectToDown handler: epoch guard dominance on every effect, closure table of '
+         'the apply condition, provenance of the applied value, success-flag dependence of every effect (also inside '
+         'callees), finality of Down from the can_change table',
+         'The iff in the statement is decided as guards/effects on all paths of the handler and its callees.',
+         COMMON_NOTE + 'nothing about real time.', '4/C11'),
+ 'C12': ('who-may-write on Probe evidence fields with guard extraction, caller/argument provenance of '
+         'receive_ack/receive_indirect_ack, relay table extraction (kind handled -> kind sent, destination, payload) '
+         'over all paths of handle_data, indirect-stage guards, single Suspect construction site',
+         'What counts as evidence, who may record it and the relay table are decided on every path.',
+         COMMON_NOTE + 'temporal clauses are decided as orderings of handler code only.', '4/C12'),
+ 'C13': ('who-may-write on timer_token (wrapping bump paired with every leave-Connected write), epoch-guard dominance in '
+         'every token-carrying timer arm, arm/re-arm site counting per periodic variant, path enumeration of set_config, '
+         'injectivity of Timer::seq',
+         'The epoch mechanism and the arm/re-arm structure are decided on every path.',
+         COMMON_NOTE + 'paths leaving a handler through `?` on a user codec error are outside the claim.', '4/C13'),
+ 'C15': ('per-entry bookkeeping rules inside Broadcasts (retain-before-push, control-equivalence of write/count/decrement, '
+         'push-back iff remaining_tx > 0, append post-dominates), sibling cross-check of fill and fill_with_len_prefix, '
+         'Entry::cmp table, who-consumes / who-enqueues guards',
+         'Accounting invariants decided per transmission on every path of the two fill loops.',
+         COMMON_NOTE + 'counts over histories follow from the invariants; not replayed.', '4/C15'),
+ 'C16': ('acceptance/receive-loop/gating rules over all paths of add_broadcast, handle_custom_broadcasts, send_message and '
+         'broadcast(): provenance of the bytes handed to the handler and stored, advance pairing, gate guards, early exit',
+         'Framing, gating and hand-over to the handler decided on every path.',
+         COMMON_NOTE + 'handler-specific invalidation relations are user code.', '4/C16'),
+ 'C17': ('effect-ordering rule: on every path to a rejection return the set of effect atoms is empty (validation before '
+         'effect), scratch-buffer rule for updates_buf, deny-list over resolved callees for ambient nondeterminism',
+         'Rejected input leaves no trace: decided per rejection class over all paths of the entry points.',
+         COMMON_NOTE + 'user code is deterministic.', '4/C17'),
+ 'C18': ('extraction of the header-triggered reply graph (kind handled x sender active/inactive -> kind sent) from all '
+         'paths of handle_data, acyclicity check with renewal-gated exception, fan-out bound per datagram',
+         'Every cycle of automatic replies is excluded structurally for all mutual-knowledge states.',
+         COMMON_NOTE + 'content-triggered gossip is bounded by max_transmissions (runtime quantity, stated not checked).', '4/C18'),
+ 'C19': ('destination-provenance rule at every send_message call site (reply to header.src after the own-address '
+         'rejection; choice_buf filled by active pickers; Members::next; down picker filtered by own address)',
+         'Every originated/answered datagram\'s destination is shown not to bear the own address, on every path.',
+         COMMON_NOTE + 'relays towards a peer-named target are outside the guarantee (as stated).', '4/C19'),
+ 'C20': ('guard rules on the postcard flavor (bounded writes), cursor-arithmetic rule, sibling agreement of the four codec '
+         'methods per codec, derive-symmetry rule for wire types',
+         'The fail-cleanly and consume-exactly clauses for the code that lives in this repository.',
+         COMMON_NOTE + 'value-level round-trip equality through bincode/postcard is not decided.', '4/C20'),
 }
 
 NOT_APPLICABLE = {
@@ -21,12 +91,10 @@ NOT_APPLICABLE = {
  'C14': 'The 2n-1 window bound for every shuffle/seed/arrangement of Down records is a combinatorial statement about cursor/shuffle dynamics over runtime sequences; a structural proxy would be brittle.',
 }
 
-PENDING = {'C06': 'rule module under construction in this session (will be claimed once its check exists); see DESIGN.md section 4', 'C07': 'rule module under construction in this session (will be claimed once its check exists); see DESIGN.md section 4', 'C08': 'rule module under construction in this session (will be claimed once its check exists); see DESIGN.md section 4', 'C09': 'rule module under construction in this session (will be claimed once its check exists); see DESIGN.md section 4', 'C10': 'rule module under construction in this session (will be claimed once its check exists); see DESIGN.md section 4', 'C11': 'rule module under construction in this session (will be claimed once its check exists); see DESIGN.md section 4', 'C12': 'rule module under construction in this session (will be claimed once its check exists); see DESIGN.md section 4', 'C13': 'rule module under construction in this session (will be claimed once its check exists); see DESIGN.md section 4', 'C15': 'rule module under construction in this session (will be claimed once its check exists); see DESIGN.md section 4', 'C16': 'rule module under construction in this session (will be claimed once its check exists); see DESIGN.md section 4', 'C17': 'rule module under construction in this session (will be claimed once its check exists); see DESIGN.md section 4', 'C18': 'rule module under construction in this session (will be claimed once its check exists); see DESIGN.md section 4', 'C19': 'rule module under construction in this session (will be claimed once its check exists); see DESIGN.md section 4', 'C20': 'rule module under construction in this session (will be claimed once its check exists); see DESIGN.md section 4'}   # id -> reason while a rule module is being built
-
-
-def main():
-    checks = []
-    for pid, (tech, text, note, ref) in sorted(CLAIMED.items()):
+PENDING = {}
+    pending = {k: 'rule module under construction (see DESIGN.md section 4); not claimed until its check exists'
+               for k in CLAIMED if k not in claimed}
+    for pid, (tech, text, note, ref) in sorted(claimed.items()):
         checks.append({
             'property_id': pid,
             'quick_cmd': './check %s --tier quick' % pid,
@@ -38,7 +106,7 @@ def main():
             'level_note': note,
             'technique': 'static analysis: ' + tech,
         })
-    na = [{'property_id': k, 'reason': v} for k, v in sorted({**NOT_APPLICABLE, **PENDING}.items())]
+    na = [{'property_id': k, 'reason': v} for k, v in sorted({**NOT_APPLICABLE, **pending}.items())]
     m = {
         'version': 1,
         'setup_cmd': './setup.sh',
@@ -50,9 +118,9 @@ def main():
             'add_only': True,
         },
         'engines': [
-            {'name': 'mirfacts', 'path': 'engine/mirfacts', 'serves_properties': sorted(CLAIMED),
+            {'name': 'mirfacts', 'path': 'engine/mirfacts', 'serves_properties': sorted(claimed),
              'kind_free_text': 'rustc_private driver exporting MIR (resolved callees, places with field names, constants, promoted bodies, spans) of the real cargo build as JSON'},
-            {'name': 'rules', 'path': 'rules', 'serves_properties': sorted(CLAIMED),
+            {'name': 'rules', 'path': 'rules', 'serves_properties': sorted(claimed),
              'kind_free_text': 'Python rule library: CFG/dominators, symbolic path enumeration (decision tables, guards, value provenance), who-may-write/call, effect rules; one module per property'},
         ],
         'checks': checks,
